@@ -43,13 +43,18 @@ CHECKS.update({
             'the client and broker are fakes following the confluent_kafka call contracts streamz uses; no log retention; at-least-once is decided through its two halves (commit only after processing, restart resumes at the durable offset) under the in-order proviso of the statement'),
 })
 
+CHECKS.update({
+    'C15': ('exploration', 'histories of emit / connect / disconnect / destroy / drop-reference+gc / add-sink operations over synchronous pipelines without parallel edges: after every operation the real upstream/downstream links are mutually consistent and equal to the model edge set (an operation that raises must not leave a half edit), every emission is delivered along exactly the edges that exist at that moment in attach order, zip / combine_latest emit what a node over their current inputs holding what those inputs delivered would emit (safety) and emit once all current inputs hold data (progress), unreferenced non-sink branches disappear from their parents, sinks stay until destroy()', '4 (C15)',
+            'loop-less pipelines (reference-count driven collection is deterministic); slice and loop-requiring nodes are not edit targets; combine_latest edited without explicit emit_on'),
+})
+
 NOT_APPLICABLE = {
     'C06': 'pure function of the batch sequence and the expression tree: no schedule, clock, I/O, peer or fault occurs in the statement or the anchored code, so simulation would only be input generation in disguise (DESIGN 5)',
     'C07': 'same as C06: window(value=T) reads timestamps from the data index, never a clock (DESIGN 5)',
     'C11': 'same as C06: the split into batches is an input, not a schedule (DESIGN 5)',
 }
 
-PENDING = {k: 'check under construction in this session (will be claimed once built)' for k in ['C12', 'C15', 'C19', 'C20']}
+PENDING = {k: 'check under construction in this session (will be claimed once built)' for k in ['C12', 'C19', 'C20']}
 
 
 def main():
